@@ -204,15 +204,17 @@ func execC18(p *C18Plan, rc *simkit.RunCtx) {
 		// independent judgement: where does the name point, resolved segment by segment from the root?
 		var target string
 		switch {
-		case op == "abs":
-			target = filepath.Clean(filepath.Join(parent, name)) // an absolute path somewhere around the root
-			name = filepath.Join(parent, name)
+		case op == "abs" || op == "scan":
+			// an absolute path given as is (not cleaned): below the parent directory or below the root itself
+			base := parent
+			if len(segs)%2 == 0 {
+				base = root
+			}
+			name = base + "/" + strings.Join(segs, "/")
 			if p.Trail[i] {
 				name += "/"
 			}
-		case op == "scan":
-			target = filepath.Clean(filepath.Join(parent, name))
-			name = filepath.Join(parent, name)
+			target = filepath.Clean(name)
 		default:
 			target = filepath.Clean(filepath.Join(root, name))
 		}
@@ -222,10 +224,6 @@ func execC18(p *C18Plan, rc *simkit.RunCtx) {
 			// the root of an archive entry is the directory the archive is unpacked into
 			target = filepath.Clean(filepath.Join(unpackDir, name))
 			escapes = !inside(unpackDir, target) || target == unpackDir
-		}
-		if op == "abs" && strings.Contains(name, "..") {
-			// an un-cleaned absolute path that leaves and re-enters the root is judged by where it ends
-			escapes = !inside(root, filepath.Clean(name))
 		}
 		simfs.Begin(simfs.Plan{CrashAt: -1, ErrAt: -1, ShortAt: -1}, e.tmp)
 		var err error
